@@ -1,2 +1,110 @@
-(* C07: statements only; theorems are added as the model of the anchored mechanism is proved *)
-From GGRS Require Import Base.
+(* C07 (timer half) — "When a remote stops responding, the session raises NetworkInterrupted after the notify
+   delay and Disconnected after the disconnect timeout (not earlier, and once)".
+   Statements only; every proof is `exact <lemma>`.  Model: Endpoint.v (src/network/protocol.rs, correspondence
+   level `endpoint`), current code; the first three theorems restate for C07 what the C12 development
+   (EndpointProofs.v) proves for all operation sequences; the silence theorems (EndpointSafety.v) describe the
+   suffix of a run in which nothing is accepted any more. *)
+From GGRS Require Import Base Consts TimeSync Endpoint EndpointSpec EndpointProofs EndpointSafety.
+Open Scope Z_scope.
+
+(* not earlier: for every operation sequence, a poll pushes NetworkInterrupted only if now > la + notify
+   (with payload max 0 (timeout - notify)) and Disconnected only if now > la + timeout, where la is the time of
+   the latest accepted packet; and a poll of a Running endpoint past a threshold does push the event unless it
+   was pushed before  (= C12_no_early_timer) *)
+Theorem C07_no_early_timer :
+  forall now0 magic handles np lp mp timeout notify fps desync dbg ops s evs,
+  let s0 := ep_new now0 magic handles np lp mp timeout notify fps desync in
+  run dbg s0 ops = Ok (s, evs) ->
+  let la := last_accept dbg s0 ops now0 in
+  u_last_recv_time s = la /\
+  forall now nonce cs s' out, step dbg (OPoll now nonce cs) s = Ok (s', out) ->
+    exists pushed, out = u_event_queue s ++ pushed /\
+      (forall t, ~ In (EvNetworkInterrupted t) (u_event_queue s)) /\
+      (forall t, In (EvNetworkInterrupted t) pushed -> la + notify < now /\ t = Z.max 0 (timeout - notify)) /\
+      (In EvDisconnected pushed -> la + timeout < now) /\
+      (u_state s = PRunning -> u_notify_sent s = false -> u_event_sent s = false -> la + notify < now ->
+         In (EvNetworkInterrupted (Z.max 0 (timeout - notify))) pushed) /\
+      (u_state s = PRunning -> u_event_sent s = false -> la + timeout < now -> In EvDisconnected pushed).
+Proof. exact no_early_timer. Qed.
+
+(* once: at most one Disconnected in everything an endpoint ever reports  (= C12_at_most_one_disconnected);
+   and by the event grammar (= C12_event_grammar) NetworkInterrupted alternates with NetworkResumed and nothing
+   but Input events follows Disconnected *)
+Theorem C07_at_most_one_disconnected :
+  forall now0 magic handles np lp mp timeout notify fps desync dbg ops s evs,
+  run dbg (ep_new now0 magic handles np lp mp timeout notify fps desync) ops = Ok (s, evs) ->
+  event_grammar (without_disconnected evs) /\ (count_disconnected evs <= 1)%nat.
+Proof. exact grammar_modulo_disconnected. Qed.
+
+Theorem C07_event_grammar :
+  forall now0 magic handles np lp mp timeout notify fps desync dbg ops s evs,
+  run dbg (ep_new now0 magic handles np lp mp timeout notify fps desync) ops = Ok (s, evs) ->
+  event_grammar evs /\ event_grammar (evs ++ u_event_queue s).
+Proof. exact event_grammar_full. Qed.
+
+(* Silence.  From ANY Running endpoint state [s] (T = last_recv_time s, the time of the last accepted packet by
+   C07_no_early_timer), a suffix consisting only of polls - any clock readings, any nonces and connection
+   statuses - returns exactly the queued events followed by [eps_silent_events]: per poll at time `now`,
+   NetworkInterrupted(max 0 (timeout - notify)) iff not yet notified, not yet reported dead and now > T + notify;
+   then Disconnected iff not yet reported dead and now > T + timeout.  The endpoint stays Running with the same T. *)
+Theorem C07_silence_events : forall dbg polls s s' evs,
+  u_state s = PRunning -> run dbg s (eps_poll_ops polls) = Ok (s', evs) ->
+  evs = (match polls with [] => [] | _ => u_event_queue s end) ++
+        eps_silent_events (u_last_recv_time s) (u_notify_start s) (u_timeout s) (u_notify_sent s) (u_event_sent s)
+                          (eps_poll_times polls) /\
+  u_state s' = PRunning /\ u_last_recv_time s' = u_last_recv_time s /\
+  (polls <> [] -> u_event_queue s' = []).
+Proof. exact eps_silence_run. Qed.
+
+(* ... at most one of each in the whole suffix (none if already sent) *)
+Theorem C07_silence_at_most_once : forall T ns to times n e,
+  (eps_count_interrupted (eps_silent_events T ns to n e times) <= (if n || e then 0 else 1))%nat /\
+  (count_disconnected (eps_silent_events T ns to n e times) <= (if e then 0 else 1))%nat.
+Proof. exact eps_silent_at_most_once. Qed.
+
+(* ... none while no poll is past the threshold *)
+Theorem C07_silence_not_early : forall T ns to times n e,
+  (Forall (fun now => now <= T + ns) times ->
+   eps_count_interrupted (eps_silent_events T ns to n e times) = 0%nat) /\
+  (Forall (fun now => now <= T + to) times ->
+   count_disconnected (eps_silent_events T ns to n e times) = 0%nat).
+Proof. exact eps_silent_not_early. Qed.
+
+(* ... the first poll with now > T + notify pushes exactly one NetworkInterrupted with payload
+   max 0 (timeout - notify) (provided no earlier poll was already past T + timeout: since 25d3021 nothing is
+   reported after Disconnected; with notify <= timeout that cannot happen), and no later poll pushes another *)
+Theorem C07_silence_interrupted_on_time : forall T ns to before now after,
+  Forall (fun t => t <= T + ns /\ t <= T + to) before -> T + ns < now ->
+  eps_silent_events T ns to false false (before ++ now :: after) =
+    EvNetworkInterrupted (Z.max 0 (to - ns)) ::
+    (if T + to <? now then [EvDisconnected] else []) ++
+    eps_silent_events T ns to true (T + to <? now) after /\
+  eps_count_interrupted (eps_silent_events T ns to true (T + to <? now) after) = 0%nat.
+Proof. exact eps_silent_interrupted_on_time. Qed.
+
+(* ... the first poll with now > T + timeout pushes Disconnected, none earlier, and nothing but nothing follows *)
+Theorem C07_silence_disconnected_on_time : forall T ns to before now after n,
+  Forall (fun t => t <= T + to) before -> T + to < now ->
+  exists pre n', eps_silent_events T ns to n false (before ++ now :: after) =
+    pre ++ EvDisconnected :: eps_silent_events T ns to n' true after /\
+    count_disconnected pre = 0%nat /\
+    count_disconnected (eps_silent_events T ns to n' true after) = 0%nat /\
+    eps_count_interrupted (eps_silent_events T ns to n' true after) = 0%nat.
+Proof. exact eps_silent_disconnected_on_time. Qed.
+
+(* non-vacuity: default timers (500 / 2000), handshake finished at time 0, polls at 400, 500, 501, 1999, 2000,
+   2001, 9000: NetworkInterrupted(1500) at 501 and Disconnected at 2001, nothing else *)
+Example C07_silence_example :
+  exists s evs, run true w_new (w_handshake ++ eps_poll_ops [(400, 0, w_status); (500, 0, w_status); (501, 0, w_status);
+                                      (1999, 0, w_status); (2000, 0, w_status); (2001, 0, w_status); (9000, 0, w_status)])
+                = Ok (s, evs) /\
+    skipn 5 evs = [EvNetworkInterrupted 1500; EvDisconnected].
+Proof. exact eps_silence_example. Qed.
+
+Check C07_silence_events : forall dbg polls s s' evs,
+  u_state s = PRunning -> run dbg s (eps_poll_ops polls) = Ok (s', evs) ->
+  evs = (match polls with [] => [] | _ => u_event_queue s end) ++
+        eps_silent_events (u_last_recv_time s) (u_notify_start s) (u_timeout s) (u_notify_sent s) (u_event_sent s)
+                          (eps_poll_times polls) /\
+  u_state s' = PRunning /\ u_last_recv_time s' = u_last_recv_time s /\
+  (polls <> [] -> u_event_queue s' = []).
